@@ -475,3 +475,28 @@ def c13_d(ctx):
         raise AnchorMissing('effective sample size function')
     decide(es[0], {'weights': 'weights'}, lambda d: S(w=1) * S(w=1) / S(w=2),
            'effective sample size', '(sum w)^2 / sum w^2')
+
+
+@obligation('C13-e', 'T14', 'the statistics helpers do not modify the arrays they are given', floor=6,
+            necessary='weights, samples and means handed to these helpers are stored populations '
+                      'and results: an in-place operation rewrites them')
+def c13_e(ctx):
+    from .base import inplace_param_sites
+    um = ctx.repo.module(U)
+    # helpers whose purpose is to fill / convert the container they are given
+    by_design = {'numpy_to_python_type': 'converts the values of the dict it is given',
+                 'sample_object_to_dict': 'fills the dict it is given'}
+    fns = list(um.functions.values()) + [m for c in um.classes.values()
+                                         for m in c.methods.values()]
+    n = 0
+    for f in fns:
+        if f.name in by_design or getattr(f, 'node', None) is None:
+            continue
+        n += 1
+        sites = inplace_param_sites(f.node)
+        ctx.check(not sites, f, 'arguments are not modified in place', '',
+                  '{} modifies its argument in place (`{}`): the caller\'s array changes'.format(
+                      f.name, src(sites[0])[:50] if sites else ''), fn=f,
+                  node=sites[0] if sites else f.node)
+    if n < 6:
+        ctx.undecided('expected the statistics helpers, found {}'.format(n))
